@@ -81,6 +81,16 @@ CLAIMS = {
             "own key; HP/DHP guard typestate; RCU read-lock discipline incl. unguarded dereferences of shared nodes outside a lock scope. "
             "Linearizability, duplicates under races and Feldman expansion interleavings are NOT decided (Feldman addressing: C28).",
             "static analysis: typestate / value-numbered path tables on enumerated CFG paths + belief propagation over the call graph", "DESIGN.md §4 C14"),
+    "C15": ("other", "Path rules over skip lists and trees: HP/DHP guard typestate; RCU read-lock discipline (skip list, Ellen tree, Bronson map) "
+            "from the code's is_locked() asserts incl. implicit destructors and unguarded dereferences; skip list: link positions only from the "
+            "key-ordered search routines and the level-L link CAS swings pos.pPrev[L]->next(L) from pos.pSucc[L], insert functor once after the "
+            "level-0 link, erase success/functor/retire only for the winner of the level-0 mark CAS and retire only when all levels were "
+            "unlinked (helper: counter reached zero); Ellen tree: child pointers swung only by help_insert/help_marked, IFlag/DFlag CAS -> help "
+            "only when won, descriptors freed directly only when unpublished, nodes retired only by the winner of the Mark CAS, functor/counter "
+            "after help_delete succeeded, new internal node ordered by the comparison and initialised before the flag CAS. "
+            "Linearizability and the extract_min/max emptiness claims are NOT decided.",
+            "static analysis: typestate / value-numbered path tables on enumerated CFG paths + who-may-write tables + belief propagation over the call graph",
+            "DESIGN.md §4 C15"),
     "C17": ("other", "Hash-independent element conservation on every CFG path of the relocation code: CuckooSet::resize and relocate insert "
             "each moved element exactly once (known finding D5: the all-probe-sets-full path of resize drops the element), probe-set positions "
             "are used before anything mutates the probe sets, StripedSet::internal_resize moves every element of every old bucket once into "
